@@ -35,16 +35,20 @@ class Sim:
         return [i for i, h in enumerate(self.handles) if h[0] == kind]
 
     def step(self, op):
+        """executes op; returns the outcome string the public API is expected to produce"""
         k = op[0]
         if k == "new":
             c = len(self.chans)
             self.chans.append({"q": [], "dead": False})
             self.handles += [("S", c), ("R", c)]
+            return "RNew %d %d" % (len(self.handles) - 2, len(self.handles) - 1)
         elif k == "clone":
             self.handles.append(self.handles[op[1]])
+            return "RCloned %d" % (len(self.handles) - 1)
         elif k == "drop":
             self.handles[op[1]] = ("G",)
             self.gc()
+            return "RDropped"
         elif k == "send":
             _, h, data, pad, atts = op
             c = self.handles[h][1]
@@ -53,14 +57,19 @@ class Sim:
                 rights.append(self.handles[x])
                 if a == "r":
                     self.handles[x] = ("G",)
-            if not self.chans[c]["dead"]:
+            ok = not self.chans[c]["dead"]
+            if ok:
                 self.chans[c]["q"].append((data, rights))
             self.gc()
+            return "RSent" if ok else "RSendErr"
         elif k == "recv":
             c = self.handles[op[1]][1]
             if self.chans[c]["q"]:
                 data, rights = self.chans[c]["q"].pop(0)
+                n = len(self.handles)
                 self.handles += rights
+                return "RMsg %d [%s]" % (data, "; ".join("(%s, %d)" % ("KTx" if r[0] == "S" else "KRx", n + i) for i, r in enumerate(rights)))
+            return "RDisconnected" if self.refs(("S", c)) == 0 else "REmpty"
 
     def acyclic_ok(self, c_target, atts):
         """refuse to embed a receiver into a message that travels towards itself (cycles are excluded by the properties)"""
@@ -86,7 +95,7 @@ class Sim:
 
 def gen_program(rng, nops, max_chans=6, max_queue=40, p_att=0.5):
     sim = Sim()
-    ops = []
+    ops, expect = [], []
     data = 0
     while len(ops) < nops:
         tx, rx = sim.live("S"), sim.live("R")
@@ -128,9 +137,10 @@ def gen_program(rng, nops, max_chans=6, max_queue=40, p_att=0.5):
                 continue
             data += 1
             op = ("send", h, data, rng.choice([0, 0, 0, 10, 500]), atts)
-        sim.step(("recv", op[1]) if op[0] == "recv" else op)
+        exp = sim.step(("recv", op[1]) if op[0] == "recv" else op)
         ops.append(op)
-    return ops
+        expect.append(exp)
+    return ops, expect
 
 
 def op_line(op):
@@ -169,39 +179,67 @@ def out_term(s):
     return None
 
 
-def project_ledger(ops):
-    """calls of one program (between progstart and progend) -> Coq call terms with descriptor IDENTITIES
-    (numbered 3, 4, ... in order of creation, like the model) instead of recycled numbers"""
+def project_ledger(calls):
+    """calls of one program (marks included) -> Coq call terms with descriptor IDENTITIES (numbered 3, 4, ... in
+    order of creation, like the model) instead of recycled numbers.  The per-message dedicated fragment channel of
+    a multi-packet message (socketpair inside a send, its receiving end installed and read with recv(2) inside a
+    receive) belongs to the packet level (Frag/Conc) and is filtered out here."""
+    # split into operations
+    groups, cur = [], []
+    for r in calls:
+        if r["call"] == "mark":
+            if r.get("label", "").startswith("op "):
+                cur = []
+                groups.append(cur)
+            continue
+        cur.append(r)
     ident, nxt, out = {}, 3, []
-    pending_installs = []
-    for r in ops:
-        c = r["call"]
-        if c == "socketpair":
-            ident[r["a"]], ident[r["b"]] = nxt, nxt + 1
-            out.append("CSocketpair %d %d" % (nxt, nxt + 1))
-            nxt += 2
-        elif c == "install":
-            pending_installs.append(r["fd"])
-        elif c == "recvmsg":
-            f = ident.get(r["fd"], 0)
-            res = 1 if r["res"] > 0 else (0 if r["res"] == 0 else 2)
-            out.append("CRecvmsg %d %d" % (f, res))
-            for nf in pending_installs:
-                ident[nf] = nxt
-                out.append("CInstall %d" % nxt)
-                nxt += 1
-            pending_installs = []
-        elif c == "poll":
-            if r["res"] == 0:
-                # timed receive that ran out: reported as EAGAIN without a recvmsg
-                out.append("CRecvmsg %d 2" % ident.get(r["fd"], 0))
-        elif c == "sendmsg":
-            out.append("CSendmsg %d %d %s" % (ident.get(r["fd"], 0), r["rights"], "true" if r["res"] > 0 else "false"))
-        elif c == "close":
-            if r["res"] == 0 and r["fd"] in ident:
-                out.append("CClose %d" % ident.pop(r["fd"]))
-            else:
-                out.append("CBadClose %d" % ident.get(r["fd"], 0))
+    for g in groups:
+        ded = set()
+        for r in g:
+            if r["call"] == "recv":
+                ded.add(r["fd"])
+        skip_pairs = set()
+        if any(r["call"] == "send" for r in g) or any(r["call"] == "socketpair" for r in g) and any(r["call"] == "sendmsg" for r in g):
+            for r in g:
+                if r["call"] == "socketpair":
+                    skip_pairs |= {r["a"], r["b"]}
+        pending_installs = []
+        for r in g:
+            c = r["call"]
+            if c == "socketpair":
+                if r["a"] in skip_pairs:
+                    continue
+                ident[r["a"]], ident[r["b"]] = nxt, nxt + 1
+                out.append("CSocketpair %d %d" % (nxt, nxt + 1))
+                nxt += 2
+            elif c == "install":
+                if r["fd"] not in ded:
+                    pending_installs.append(r["fd"])
+            elif c == "recvmsg":
+                f = ident.get(r["fd"], 0)
+                res = 1 if r["res"] > 0 else (0 if r["res"] == 0 else 2)
+                out.append("CRecvmsg %d %d" % (f, res))
+                for nf in pending_installs:
+                    ident[nf] = nxt
+                    out.append("CInstall %d" % nxt)
+                    nxt += 1
+                pending_installs = []
+            elif c == "poll":
+                if r["res"] == 0:
+                    out.append("CRecvmsg %d 2" % ident.get(r["fd"], 0))
+            elif c == "sendmsg":
+                nr = r["rights"] - (1 if skip_pairs else 0)
+                out.append("CSendmsg %d %d %s" % (ident.get(r["fd"], 0), nr, "true" if r["res"] > 0 else "false"))
+            elif c == "close":
+                if r["fd"] in skip_pairs or r["fd"] in ded:
+                    skip_pairs.discard(r["fd"])
+                    ded.discard(r["fd"])
+                    continue
+                if r["res"] == 0 and r["fd"] in ident:
+                    out.append("CClose %d" % ident.pop(r["fd"]))
+                else:
+                    out.append("CBadClose %d" % ident.get(r["fd"], 0))
     return out
 
 
@@ -227,7 +265,8 @@ def run_programs(binp, programs, S=None, shim=True, timeout=900):
         ledger = None
         if trace and start is not None:
             cut = C.ops_between(trace, "op %s 0" % pid, "endop %s %d" % (pid, len(ops) - 1)) or []
-            ledger = project_ledger([q for q in cut if q["call"] != "mark"])
+            first = next((q for q in trace if q["call"] == "mark" and q.get("label") == "op %s 0" % pid), None)
+            ledger = project_ledger(([first] if first else []) + cut)
         res.append({"prog": pid, "ops": ops, "outs": outs, "counts": counts, "ledger": ledger, "start": start, "end": end,
                     "complete": end is not None and len(outs) == len(ops), "stderr": err if end is None else ""})
     return res
